@@ -121,6 +121,41 @@ def _chunk(arg: tuple) -> tuple[int, int, list, list]:
                                 value_bad.append((text, i, f'value assigned from {alt!r} does not read back'))
                             elif exc is not None:
                                 value_bad.append((text, i, f'value = {v!r} (in the type\'s domain) raised {type(exc).__name__}: {exc}'))
+                # the same through value-level properties of the owning model (x.payee = '', x.account = ...):
+                # the property updates ONE token (possibly replacing it by one new token); nothing else moves
+                if not only_invalid:
+                    from checks import slots
+                    f1 = tree.parse(text)
+                    for p1, m in tree.walk(f1):
+                        if isinstance(m, models.RawTokenModel) or type(m).__name__ == 'Repeated':
+                            continue
+                        for sl in slots.schema(type(m)):
+                            if not sl['val']:
+                                continue
+                            child = getattr(m, sl['name'])
+                            if not isinstance(child, models.RawTokenModel) or not hasattr(type(child), 'value'):
+                                continue
+                            cur = getattr(m, sl['val'])
+                            cands = []
+                            if isinstance(cur, str) and isinstance(child, (models.EscapedString, models.InlineComment, models.BlockComment)):
+                                cands = ['', cur + 'x']
+                            elif isinstance(cur, str) and ALTS.get(child.RULE):
+                                try:
+                                    cands = [type(child).from_raw_text(ALTS[child.RULE][0]).value]
+                                except Exception:  # noqa: BLE001
+                                    cands = []
+                            for v in cands:
+                                f2 = tree.parse(text)
+                                m2 = [x for p2, x in tree.walk(f2)][[id(x) for p2, x in tree.walk(f1)].index(id(m))]
+                                t2 = getattr(m2, sl['name'])
+                                st2 = f2.token_store
+                                rec.observe(st2)
+                                n_assign += 1
+                                e2 = rec.assign(st2, t2, lambda: setattr(m2, sl['val'], v))
+                                if e2 is not None:
+                                    value_bad.append((text, 0, f'{type(m).__name__}.{sl["val"]} = {v!r} raised {type(e2).__name__}: {e2}'))
+                                elif getattr(m2, sl['val']) != v:
+                                    value_bad.append((text, 0, f'{type(m).__name__}.{sl["val"]} = {v!r} reads back {getattr(m2, sl["val"])!r}'))
     finally:
         rec.uninstall()
         store_replay.set_load_factor(1000)
@@ -152,7 +187,7 @@ def core(prop: str, tier: str, rep: common.Reporter) -> dict:
     traces: list = []
     with mp.Pool(16) as pool:
         jobs = [(seed + j, flavors, ch, depth2, prop == 'C19') for j, ch in enumerate(common.chunked(docs, 12))]
-        for nd, na, tr, vb in pool.imap_unordered(_chunk, jobs):
+        for nd, na, tr, vb in common.gmap(pool, rep, _chunk, jobs):
             n_docs += nd
             n_assign += na
             traces.extend(tr)
